@@ -397,7 +397,7 @@ def run(rep, tier="quick", srcdir=None, only=None):
 LEVEL = "other"
 
 MANIFEST = {
-    "technique": "path-partitioned interval abstract interpretation of the inlined LLVM IR against the dispatch_time_t encoding spec",
+    "technique": "path-partitioned interval abstract interpretation of the inlined LLVM IR against the dispatch_time_t encoding spec + a client translation unit compiled against dispatch/time.h (calls must survive CSE) + composition (callee folded in) where one entry point delegates to another",
     "level": "static decision over all 2^64 x 2^64 inputs of dispatch_time / dispatch_walltime / _dispatch_timeout / _dispatch_time_nanoseconds_since_epoch: every feasible "
              "IR path of every spec input class is shown to be EXACT, SAT_HIGH or SAT_LOW by interval entailment (no sampling, no "
              "solver); this is the closest to a complete decision the property admits statically",
